@@ -7,6 +7,7 @@ def dispatch (line : String) : String :=
   | "c02" :: rest => (handleC02 rest).getD "err|bad-request"
   | "c03" :: rest => (handleC03 rest).getD "err|bad-request"
   | "c07" :: rest => (handleC07 rest).getD "err|bad-request"
+  | "c17" :: rest => (handleC17 rest).getD "err|bad-request"
   | _ => "err|unknown-command"
 
 partial def loop (h : IO.FS.Stream) (out : IO.FS.Stream) : IO Unit := do
